@@ -16,6 +16,7 @@ import (
 	"fmt"
 	"strings"
 	"sync"
+	"sync/atomic"
 	"testing"
 	"testing/synctest"
 	"time"
@@ -38,6 +39,13 @@ const (
 	classModel     = "c13-flush-contents-differ-from-batch-config"
 	classCloseCode = "c13-unexpected-connection-close"
 )
+
+// The runner stops a child process after 50 recorded violations. A defect that
+// many cases witness would cut the exploration short, so each child process
+// reports the first few witnesses of the window class and counts the rest.
+var windowReports atomic.Int32
+
+const maxWindowReportsPerProcess = 12
 
 type chanCfg struct {
 	Name     string  `json:"channel"`
@@ -945,6 +953,12 @@ func checkChannel(c *kit.Case, s *scenario, o *observer, cc chanCfg, frames []ki
 	sig := ""
 	orphanPossible := false // an earlier unsubscribe window may have left a re-created writer behind
 	for _, in := range incs {
+		if (!in.started || ((in.EndKind == "unsub-command" || in.EndKind == "unsub-server") && !in.ended)) && o.closeK == "noflush" {
+			// the connection was closed without flush at the same virtual instant:
+			// the queued acknowledgement was discarded with the queue.
+			c.Count("acknowledgement_discarded_by_close_without_flush", 1)
+			return sig
+		}
 		if !in.started {
 			c.Violation("c13-subscribe-not-acknowledged", fmt.Sprintf("observer %d: subscription %d to %s was never acknowledged on the transport", o.idx, in.N, ch), detail(in, nil))
 			return sig
@@ -975,16 +989,16 @@ func checkChannel(c *kit.Case, s *scenario, o *observer, cc chanCfg, frames []ki
 				if rec.Kind == "pub" && !rec.Hist && rec.Window {
 					cls, what = classWindow, "a publication without history, published between channel-writer removal and hub removal,"
 				}
-				c.Violation(cls, fmt.Sprintf("observer %d (%s): %s %s (produced seq %d..%d at %v) was delivered on %s at frame seq %d (%v), after the %s acknowledged at frame seq %d",
-					o.idx, o.kind, what, it.id, rec.CallSeq, rec.RetSeq, rec.At, ch, it.seq, it.at, in.EndKind, in.EndSeq), detail(in, map[string]any{"item": rec}))
+				report(c, cls, fmt.Sprintf("observer %d (%s): %s %s (produced seq %d..%d at %v) was delivered on %s at frame seq %d (%v), after the %s acknowledged at frame seq %d",
+					o.idx, o.kind, what, it.id, rec.CallSeq, rec.RetSeq, rec.At, ch, it.seq, it.at, in.EndKind, in.EndSeq), func() any { return detail(in, map[string]any{"item": rec}) })
 				return sig
 			case rec.RetSeq < in.SubCall:
 				cls, what := classStale, "a push"
 				if rec.Kind == "pub" && !rec.Hist && rec.Window {
 					cls, what = classWindow, "a publication without history, published between channel-writer removal and hub removal of the previous subscription,"
 				}
-				c.Violation(cls, fmt.Sprintf("observer %d (%s): %s %s (produced seq %d..%d at %v, before this subscription was requested at seq %d) was delivered on %s at frame seq %d (%v) inside subscription %d",
-					o.idx, o.kind, what, it.id, rec.CallSeq, rec.RetSeq, rec.At, in.SubCall, ch, it.seq, it.at, in.N), detail(in, map[string]any{"item": rec}))
+				report(c, cls, fmt.Sprintf("observer %d (%s): %s %s (produced seq %d..%d at %v, before this subscription was requested at seq %d) was delivered on %s at frame seq %d (%v) inside subscription %d",
+					o.idx, o.kind, what, it.id, rec.CallSeq, rec.RetSeq, rec.At, in.SubCall, ch, it.seq, it.at, in.N), func() any { return detail(in, map[string]any{"item": rec}) })
 				return sig
 			case inWindow:
 				c.Count("window_items_delivered_before_end_frame", 1)
@@ -1127,6 +1141,19 @@ func checkChannel(c *kit.Case, s *scenario, o *observer, cc chanCfg, frames []ki
 		}
 	}
 	return sig
+}
+
+// report records a violation; witnesses of the window class beyond the first
+// few of this process are only counted (see windowReports).
+func report(c *kit.Case, class, msg string, detail func() any) {
+	if class == classWindow {
+		if windowReports.Add(1) > maxWindowReportsPerProcess {
+			c.Count("window_defect_witnesses_not_reported", 1)
+			return
+		}
+		c.Count("window_defect_witnesses_reported", 1)
+	}
+	c.Violation(class, msg, detail())
 }
 
 // supersededInGroups counts publications the model coalesced away inside flushed groups.
@@ -1323,7 +1350,7 @@ func TestC13(t *testing.T) {
 			"close without flush: the delivered pushes may be any prefix of the model outcome (the connection queue is discarded); close with flush may or may not deliver what the channel writer still buffered",
 			"the observing connections use the default connection writer (no WriteDelay) and a transport without latency, so a flush reaches the transport at its own virtual instant",
 		},
-		Cases:       map[string]int{"quick": 6000, "thorough": 90000},
+		Cases:       map[string]int{"quick": 3200, "thorough": 48000},
 		CaseTimeout: 120 * time.Second,
 		RequireCounters: []string{"flush_size_triggered", "flush_timer_triggered", "flushes_with_several_items", "coalesced_publications", "joins_delivered", "leaves_delivered",
 			"timer_coincidences_timer_first", "timer_coincidences_event_first", "latest_mode_incarnations", "plain_mode_incarnations", "unbatched_channel_incarnations",
